@@ -73,4 +73,10 @@ where
     pub fn clear(&mut self) {
         self.allocator.clear();
     }
+
+    /// Verification hook: free id intervals in ascending order.
+    #[cfg(mqtt_protocol_core_verif)]
+    pub fn verif_intervals(&self) -> alloc::vec::Vec<(T, T)> {
+        self.allocator.verif_intervals()
+    }
 }
